@@ -182,17 +182,21 @@ pub fn op_cmp(p: &Pointer, q: &Pointer) -> String {
     for buf in [&pb, &qb] {
         let whole: &Pointer = buf;
         let mut views: Vec<&Pointer> = Vec::new();
-        if let Some(par) = whole.parent() { views.push(par); }
-        let n = whole.count();
-        for k in super::util::sample_positions(n + 1, 8) {
-            if let Some(v) = whole.get(..k) { views.push(v); }
-            if let Some(v) = whole.get(k..) { views.push(v); }
+        // views are cut out of the buffer's own text at separators found by our own scan and re-wrapped
+        // with `Pointer::parse` (a view of the very same bytes) — no other crate function is involved
+        let text: &str = buf.as_str();
+        let seps: Vec<usize> = text.bytes().enumerate().filter(|(_, b)| *b == b'/').map(|(i, _)| i).collect();
+        for idx in super::util::sample_positions(seps.len().saturating_sub(1), 8) {
+            if let Some(&cut) = seps.get(idx) {
+                if let Ok(v) = Pointer::parse(&text[..cut]) { views.push(v); }
+                if let Ok(v) = Pointer::parse(&text[cut..]) { views.push(v); }
+            }
         }
         views.push(whole);
         for v in views {
             let want_eq = buf.as_str() == v.as_str();
             let want_ord = buf.as_str().cmp(v.as_str());
-            let copy: PointerBuf = PointerBuf::parse(v.as_str().to_string()).expect("valid");
+            let copy: PointerBuf = match PointerBuf::parse(v.as_str().to_string()) { Ok(c) => c, Err(_) => continue };
             let eqs = [
                 eqi!(PointerBuf, Pointer, buf, v), eqi!(Pointer, PointerBuf, v, buf),
                 eqi!(PointerBuf, &Pointer, buf, &v), eqi!(&Pointer, PointerBuf, &v, buf),
@@ -224,15 +228,19 @@ pub fn op_cmp(p: &Pointer, q: &Pointer) -> String {
 
 pub fn op_zc_ptr(p: &Pointer) -> String {
     let mut bad: Vec<&'static str> = Vec::with_capacity(32);
+    let mut panics: Vec<&'static str> = Vec::with_capacity(32);
     // all bookkeeping happens outside the measured windows
     macro_rules! zc {
         ($name:literal, $e:expr) => {{
-            // catch_unwind itself does not allocate unless the call panics; a panic counts as
-            // a violation of the operation named
+            // catch_unwind itself does not allocate unless the call panics. A panicking operation is
+            // some other property's business (C12, C13 …), not an allocation: it is listed in the
+            // informational field `zcp` and not counted here
             let (n, r) = measure(|| guard(|| $e));
             let panicked = r.is_none();
             drop(r);
-            if (n != 0 || panicked) && !bad.contains(&$name) {
+            if panicked {
+                if !panics.contains(&$name) { panics.push($name); }
+            } else if n != 0 && !bad.contains(&$name) {
                 bad.push($name);
             }
         }};
@@ -332,6 +340,9 @@ pub fn op_zc_ptr(p: &Pointer) -> String {
         o.f("zc", &format!("alloc:{}", bad.join(",")));
     }
     o.f("ctl", if ctl_ok { "ok" } else { "dead" });
+    if !panics.is_empty() {
+        o.f("zcp", &panics.join(","));
+    }
     o.finish()
 }
 
